@@ -123,6 +123,7 @@ class Part:
         enum: Optional[Callable[[str], Iterable]] = None,
         n: Optional[dict] = None,
         enum_note: Optional[Callable[[str], str]] = None,
+        watchdog: Optional[int] = None,
     ):
         self.name = name
         self.run = run
@@ -130,6 +131,7 @@ class Part:
         self.enum = enum
         self.n = n or {"quick": 200, "thorough": 20000}
         self.enum_note = enum_note
+        self.watchdog = watchdog  # seconds per case (default CASE_WATCHDOG_S); for cases that loop internally
 
 
 # ----------------------------------------------------------------------------
@@ -226,7 +228,7 @@ def run_one(part: Part, case, active: frozenset, agg: Optional[Agg], origin: dic
     rec = Rec(active)
     _note_progress(part, case)
     old = signal.signal(signal.SIGALRM, _alarm)
-    signal.alarm(CASE_WATCHDOG_S)
+    signal.alarm(part.watchdog or CASE_WATCHDOG_S)
     try:
         try:
             part.run(case, rec)
